@@ -250,7 +250,7 @@ fn c02_num_u64_negative_literal_witness() {
 }
 
 //@ id: A-1u-mL
-//@ tier: quick
+//@ tier: thorough
 //@ cap: 900
 //@ desc: u64 value above i64::MAX on the memory tier (held as its decimal string): equals the integer comparison for every literal and operator (was finding F-C02-d, fixed)
 //@ functions: NumericCondition::evaluate_event_direct, DirectEventAccessor::get_field_as_i64, DirectEventAccessor::get_field_as_u64, ScalarValue::as_i64
@@ -381,7 +381,7 @@ fn c02_logical_and_segment() {
 }
 
 //@ id: A-3-and-m
-//@ tier: quick
+//@ tier: thorough
 //@ cap: 900
 //@ desc: AND over numeric leaves equals the boolean combination of the leaf comparisons on the memory tier
 //@ functions: LogicalCondition::evaluate_event_direct, NumericCondition::evaluate_event_direct
@@ -409,7 +409,7 @@ fn c02_logical_or_segment() {
 }
 
 //@ id: A-3-or-m
-//@ tier: quick
+//@ tier: thorough
 //@ cap: 900
 //@ desc: OR over numeric leaves equals the boolean combination of the leaf comparisons on the memory tier
 //@ functions: LogicalCondition::evaluate_event_direct, NumericCondition::evaluate_event_direct
@@ -437,7 +437,7 @@ fn c02_logical_not_segment() {
 }
 
 //@ id: A-3-not-m
-//@ tier: quick
+//@ tier: thorough
 //@ cap: 900
 //@ desc: NOT over numeric leaves equals the boolean combination of the leaf comparisons on the memory tier
 //@ functions: LogicalCondition::evaluate_event_direct, NumericCondition::evaluate_event_direct
